@@ -875,6 +875,12 @@ fn scm_case(sm: &mut Box<Sim>, slot: u64) -> Out {
         6 => 16 + 4 * (1 + d.choose(K::Arg, 20) as usize),
         _ => (16 + 4 * (1 + d.choose(K::Arg, 20) as usize) + 7) & !7,
     };
+    // a quarter of the runs with descriptors: the receiving socket has SO_PASSCRED set, the kernel
+    // then puts an SCM_CREDENTIALS message (length 28, not a multiple of the alignment, 32 bytes of
+    // space) in front of the rights message and the walk has to step over it
+    let passcred = nfds > 0 && d.chance(K::Arg, 1, 4);
+    let cred_space = if passcred { 32 } else { 0 };
+    let (need, ctl_len) = (need + cred_space, ctl_len + cred_space);
     let payload_len = 1 + d.choose(K::Arg, 64) as usize;
     let dir = format!("/verif/work/c16.{}.{}.scm", unsafe { libc::getpid() }, slot % 4);
     let _ = std::fs::remove_dir_all(&dir);
@@ -891,6 +897,10 @@ fn scm_case(sm: &mut Box<Sim>, slot: u64) -> Out {
         .collect();
     let mut sv = [0i32; 2];
     unsafe { libc::socketpair(libc::AF_UNIX, libc::SOCK_STREAM | libc::SOCK_CLOEXEC, 0, sv.as_mut_ptr()) };
+    if passcred {
+        let one: i32 = 1;
+        unsafe { libc::setsockopt(sv[1], libc::SOL_SOCKET, libc::SO_PASSCRED, std::ptr::addr_of!(one).cast(), 4) };
+    }
     let mut pipefd = [0i32; 2];
     unsafe { libc::pipe(pipefd.as_mut_ptr()) };
     let mut viol: Option<Violation> = None;
@@ -1003,7 +1013,7 @@ fn scm_case(sm: &mut Box<Sim>, slot: u64) -> Out {
         }
         let n = words[0];
         let count = words[1] as usize;
-        let fit = if ctl_len >= 16 + 4 { ((ctl_len - 16) / 4).min(nfds) } else { 0 };
+        let fit = if ctl_len >= cred_space + 16 + 4 { ((ctl_len - cred_space - 16) / 4).min(nfds) } else { 0 };
         // without descriptors the two messages are plain stream data and may arrive in one read
         if n != payload_len as u64 && !(nfds == 0 && n == payload_len as u64 + 3) {
             viol = Some(Violation { sig: "scm|payload-length".into(), detail: format!("recvmsg returned {n}, {payload_len} bytes were sent") });
